@@ -18,9 +18,11 @@ class Out:
         self.stats = collections.Counter()
         self.distinct = set()
         self.samples = []
+        self.extra_sig = {}
 
     def v(self, batch, case, kind, syntax, detail, value=None, cmd=None, observed=None, feats=None, extra=None):
         sig = dict(kind=kind, syntax=syntax, family=case.family, label=case.label, features=feats or [])
+        sig.update(self.extra_sig)
         if kind == 'crash':
             ck, cf = common.crash_sig(detail or '')
             sig['crash_kind'], sig['crash_site'] = ck, cf
